@@ -67,6 +67,8 @@ type rtrDesc struct {
 	FiltB  string   `json:"filtb"`
 	Pairs  [][2]int `json:"pairs"` // local ip, wan ip
 	cidr   string
+	queue  int           // RouterConfig.QueueSize (0: unlimited)
+	delay  time.Duration // fixed MinDelay (0: drawn at random)
 }
 
 type hostDesc struct {
@@ -135,7 +137,10 @@ func build(tr *vrt.Tracer, rng *rand.Rand, rs []rtrDesc, hs []hostDesc) *world {
 	lf := logging.NewDefaultLoggerFactory()
 	for _, r := range rs {
 		cfg := &vnet.RouterConfig{CIDR: r.cidr, LoggerFactory: lf, Name: fmt.Sprintf("r%d", r.ID)}
-		if rng.Intn(2) == 0 {
+		if r.delay > 0 {
+			cfg.MinDelay = r.delay
+			cfg.QueueSize = r.queue
+		} else if rng.Intn(2) == 0 {
 			// a delay makes chunks pile up in the router's queue (order must still be kept)
 			cfg.MinDelay = time.Duration(1+rng.Intn(5)) * time.Millisecond
 		}
@@ -280,6 +285,18 @@ func (w *world) batch(ops []sendOp) {
 	time.Sleep(200 * time.Millisecond) // longer than every configured delay on any path (virtual time)
 	synctest.Wait()
 	w.emit(vrt.M{"ev": "flush"})
+}
+
+// sendOne writes one datagram without waiting for the network to drain.
+func (w *world) sendOne(o sendOp) {
+	w.mu.Lock()
+	w.nextID++
+	id := w.nextID
+	p := payload(id, o.n)
+	w.want[id] = append([]byte(nil), p...)
+	w.tr.Emit(vrt.M{"ev": "send", "s": o.s, "id": id, "dst": o.dst, "len": o.n})
+	w.mu.Unlock()
+	_, _ = w.socks[o.s].WriteTo(p, &net.UDPAddr{IP: decIP(o.dst[0]), Port: o.dst[1]})
 }
 
 // sendEmpty sends one empty datagram and lets it settle (its identity travels out of band).
@@ -478,6 +495,36 @@ func TestVerifVNet(t *testing.T) { //nolint:cyclop,gocognit
 				w.close()
 			})
 		}
+	}
+	// a bounded router queue that is filled up to, but never beyond, its capacity: nothing may be lost.
+	// Four datagrams fill the queue of four; the first becomes due alone and leaves; a fifth arrives
+	// while three are still waiting; later the queue is filled again.
+	for rep := 0; rep < 3; rep++ {
+		synctest.Test(t, func(*testing.T) {
+			root := rtrDesc{ID: 1, Lo: 0, Hi: 255, Wan: []int{}, Mode: "napt", MapB: "ind", FiltB: "ind", Pairs: [][2]int{}, cidr: "1.2.3.0/24",
+				queue: 4, delay: 5 * time.Millisecond}
+			hs := []hostDesc{{1, 1, []int{21}}, {2, 1, []int{22}}}
+			w := build(tr, rng, []rtrDesc{root}, hs)
+			w.bind(1, hs[0], 21, 5001)
+			w.bind(2, hs[1], 22, 5002)
+			dst := [2]int{22, 5002}
+			for round := 0; round < 3+rep; round++ {
+				w.sendOne(sendOp{1, dst, 20})
+				time.Sleep(time.Millisecond)
+				for i := 0; i < 3; i++ {
+					w.sendOne(sendOp{1, dst, 30 + i})
+				}
+				time.Sleep(4*time.Millisecond + 500*time.Microsecond) // the first has left, three are waiting
+				synctest.Wait()
+				w.sendOne(sendOp{1, dst, 40})
+				time.Sleep(20 * time.Millisecond)
+				synctest.Wait()
+			}
+			time.Sleep(200 * time.Millisecond)
+			synctest.Wait()
+			w.emit(vrt.M{"ev": "flush"})
+			w.close()
+		})
 	}
 	t.Logf("events=%d", tr.N)
 }
